@@ -30,9 +30,12 @@ RULE = ("hist: a random history (4-33 ops) of deliveries, raw HTTP requests (7 p
         "asked for messages that exist, with and without attachments) and calls of every method of "
         "pkg/rest/client, run on the memory and the file store, local/full naming, with and without a base path. "
         "Message metadata: tags from 400 on are stored with EMPTY or long metadata — no recipients, an empty sender address, an empty "
-        "subject, one empty recipient, 60 recipients, and combinations — mixed into the histories (30% of the deliveries) and in a stream of their own "
+        "subject, one empty recipient, 2 / 60 / 257 / 1025 recipients, and combinations — mixed into the histories (30% of the deliveries) and in a stream of their own "
         "followed by plain listings (no query parameters) through the API and the client and every message fetched by id (API, client, web UI): "
         "a listing is exactly the mailbox, and every field is read back as stored, whatever the metadata looks like. "
+        "Source sizes: sources of 0, 1, 257, 4096+-1... 65536+-1, 1 MiB, 10 240 000, 10 256 384+-1 and 12 000 000 bytes (quick: 0 / 1 / 257 / 4097 / 65536 / 1 MiB / 10 256 385 / 12 000 000; "
+        "thorough: all of them plus 2^24+-1, 2^25+1 and 64 MiB) are put into both stores and fetched through REST /source, the web UI's /source and the client's "
+        "GetMessageSource and MessageHeader.GetSource; the driver compares every byte with what it stored (the token stays the content tag). "
         "A further stream makes message content unavailable — the content file vanishes (file store), or another client's removal "
         "completes between the manager's look-up and its open (a wrapper around the Store the manager sees) — and asks for the message "
         "through every endpoint: any well-formed answer is accepted there, a dropped connection (handler panic) is not. "
